@@ -440,7 +440,7 @@ pub fn run(ctx: &Ctx) -> Report {
          non-trivial = >= 2 frames and a cut strictly inside a header/Remaining Length; distinct by (stream, cuts)",
     );
     let big = ctx.tier == Tier::Thorough;
-    let n = ctx.tier.pick(150_000, 250_000);
+    let n = ctx.tier.pick(300_000, 300_000);
     let (st, v) = search(ctx, "c09.random", n, || case_strategy(big), test);
     rep.absorb("random_streams_and_partitions", st, v, false);
     let shorts = short_streams(ctx.tier.pick(1000, 10_000) as usize, ctx.seed);
